@@ -105,6 +105,8 @@ extern struct closure g_inline_last;
 extern size_t g_destroyed;               /* non-empty handlers destroyed without being invoked */
 
 #define EVENT_FRAME g_posted_count, g_posted_last, g_posted_at_Gi, g_bound_ec, g_bound_n
+/* functions that post through post_owned only never touch the bound-argument ghosts */
+#define EVENT_FRAME_NB g_posted_count, g_posted_last, g_posted_at_Gi
 #define EVENT_FRAME_ALL g_posted_count, g_posted_last, g_posted_at_Gi, g_bound_ec, g_bound_n, g_inline_calls, g_inline_last, g_destroyed
 
 static inline void post_closure(fn_t tok, int ec, size_t n, int kind)
